@@ -877,3 +877,241 @@ Proof.
     + exact Hdisj.
     + exists y. split; [exact Hy1|]. apply Hy3. reflexivity.
 Qed.
+
+(* ---------- the issuer commits to its disclosures only ---------- *)
+Definition isdig (g : val) : Prop := match g with VDig _ _ _ _ _ _ => True | _ => False end.
+Definition dig_e (g : val) : N := match g with VDig _ _ e _ _ _ => e | _ => 1%N end.
+
+Lemma occurs_obj g m : occurs g (VObj m) <-> exists kv, In kv m /\ occurs g (snd kv).
+Proof. cbn. apply fold_or. Qed.
+Lemma occurs_arr g l : occurs g (VArr l) <-> exists x, In x l /\ occurs g x.
+Proof. cbn. apply fold_or. Qed.
+
+Lemma clean_no_dig v : clean v = true -> forall g, isdig g -> ~ occurs g v.
+Proof.
+  induction v as [| b | z | s | a0 e0 e s n v IH | l IH | m IH] using val_ind'; intros Hc g Hg Ho; try (cbn in Ho; contradiction); try discriminate.
+  - cbn in Ho. subst g. exact Hg.
+  - apply occurs_arr in Ho as (x & Hx & Ho). cbn in Hc. apply andb_true_iff in Hc as [_ Hc]. rewrite forallb_forall in Hc.
+    rewrite Forall_forall in IH. exact (IH x Hx (Hc x Hx) g Hg Ho).
+  - apply occurs_obj in Ho as (kv & Hkv & Ho). cbn in Hc. apply andb_true_iff in Hc as [_ Hc]. rewrite forallb_forall in Hc.
+    specialize (Hc kv Hkv). apply andb_true_iff in Hc as [_ Hc]. rewrite Forall_forall in IH. exact (IH kv Hkv Hc g Hg Ho).
+Qed.
+
+(* [t]: a level as the issuer wrote it; every digest string of its visible members and of its own digests is the
+   digest of one of its disclosures, or a decoy *)
+Definition occ_ok (a : N) (t : triple) : Prop :=
+  forall g, isdig g ->
+    (exists kv, In kv (t_vis t) /\ occurs g (snd kv)) \/ (exists d, In d (t_lvl t) /\ occurs g (digest a d)) ->
+    (exists d0, In d0 (t_lvl t ++ t_nst t) /\ g = digest a d0) \/ dig_e g = 0%N.
+
+Lemma occurs_decoys a p n g : isdig g -> (exists d, In d (decoy_discs p n) /\ occurs g (digest a d)) -> dig_e g = 0%N.
+Proof.
+  intros Hg (d & Hd & Ho). induction n as [|k IH]; [contradiction|].
+  cbn [decoy_discs] in Hd. apply in_app_or in Hd as [Hd|[<-|[]]]; [apply IH; assumption|].
+  cbn in Ho. destruct Ho as [->|[]]. reflexivity.
+Qed.
+
+Lemma occurs_sd_list a g l :
+  occurs g (VArr (map (digest a) l)) <-> exists d, In d l /\ occurs g (digest a d).
+Proof.
+  rewrite occurs_arr. split.
+  - intros (x & Hx & Ho). apply in_map_iff in Hx as (d & <- & Hd). exists d; split; assumption.
+  - intros (d & Hd & Ho). exists (digest a d). split; [apply in_map; assumption|assumption].
+Qed.
+
+(* occurrences in the object written for a level *)
+Lemma occ_obj_v2 a o cur t g :
+  o_alg o = a -> isdig g -> occ_ok a t ->
+  occurs g (VObj (t_vis t ++ [sd2 o cur (t_lvl t)])) ->
+  (exists d0, In d0 (t_lvl t ++ t_nst t) /\ g = digest a d0) \/ dig_e g = 0%N.
+Proof.
+  intros Ha Hg Hok Ho. apply occurs_obj in Ho as (kv & Hkv & Ho). apply in_app_or in Hkv as [Hkv|[<-|[]]].
+  - apply Hok; [assumption|]. left. exists kv; split; assumption.
+  - unfold sd2, sd_member in Ho. cbn [snd] in Ho. rewrite Ha in Ho.
+    destruct (map (digest a) (t_lvl t ++ decoy_discs cur (o_decoys o))) eqn:E; [cbn in Ho; contradiction|].
+    rewrite <- E in Ho. apply occurs_sd_list in Ho as (d & Hd & Ho). apply in_app_or in Hd as [Hd|Hd].
+    + apply Hok; [assumption|]. right. exists d; split; assumption.
+    + right. eapply occurs_decoys; [assumption|]. exists d; split; eassumption.
+Qed.
+
+Lemma occ_obj_v5 a o cur t g :
+  o_alg o = a -> isdig g -> occ_ok a t ->
+  occurs g (obj5 o cur (t_vis t) (t_lvl t)) ->
+  (exists d0, In d0 (t_lvl t ++ t_nst t) /\ g = digest a d0) \/ dig_e g = 0%N.
+Proof.
+  intros Ha Hg Hok Ho. unfold obj5 in Ho. apply occurs_obj in Ho as (kv & Hkv & Ho). apply in_app_or in Hkv as [Hkv|Hkv].
+  - apply Hok; [assumption|]. left. exists kv; split; assumption.
+  - unfold sd5 in Hkv. destruct (t_lvl t ++ decoy_discs cur (o_decoys o)) as [|d1 l1] eqn:E; [contradiction|].
+    destruct Hkv as [<-|[]]. cbn [snd] in Ho. rewrite <- E, Ha in Ho.
+    apply occurs_sd_list in Ho as (d2 & Hd & Ho). apply in_app_or in Hd as [Hd|Hd].
+    + apply Hok; [assumption|]. right. exists d2; split; assumption.
+    + right. eapply occurs_decoys; [assumption|]. exists d2; split; eassumption.
+Qed.
+
+Lemma occ_ok_cat3 a ts : Forall (occ_ok a) ts -> occ_ok a (cat3 ts).
+Proof.
+  intros H g Hg Ho. rewrite Forall_forall in H. unfold cat3 in *. cbn [t_vis t_lvl t_nst fst snd] in *.
+  assert (Hfin : forall t, In t ts ->
+            (exists d0, In d0 (t_lvl t ++ t_nst t) /\ g = digest a d0) \/ dig_e g = 0%N ->
+            (exists d0, In d0 (flat_map t_lvl ts ++ flat_map t_nst ts) /\ g = digest a d0) \/ dig_e g = 0%N).
+  { intros t Ht [(d0 & Hd0 & He)|He]; [left|right; assumption]. exists d0. split; [|assumption].
+    apply in_app_or in Hd0 as [Hd0|Hd0]; apply in_or_app; [left|right]; apply in_flat_map; exists t; split; assumption. }
+  destruct Ho as [(kv & Hkv & Ho)|(d & Hd & Ho)].
+  - apply in_flat_map in Hkv as (t & Ht & Hkv). apply (Hfin t Ht). apply (H t Ht g Hg). left. exists kv; split; assumption.
+  - apply in_flat_map in Hd as (t & Ht & Hd). apply (Hfin t Ht). apply (H t Ht g Hg). right. exists d; split; assumption.
+Qed.
+
+Lemma occ_raw_vis a k x : clean x = true -> occ_ok a ([(k, x)], [], []).
+Proof.
+  intros Hc g Hg [(kv & [<-|[]] & Ho)|(d & [] & _)]. cbn [snd] in Ho. exfalso. exact (clean_no_dig x Hc g Hg Ho).
+Qed.
+Lemma occ_raw_sd a cur k x nst : clean x = true -> occ_ok a ([], [mk 3 cur k x], nst).
+Proof.
+  intros Hc g Hg [(kv & [] & _)|(d & [<-|[]] & Ho)]. cbn in Ho. destruct Ho as [->|Ho].
+  - left. exists (mk 3 cur k x). split; [left; reflexivity|reflexivity].
+  - exfalso. exact (clean_no_dig x Hc g Hg Ho).
+Qed.
+
+Lemma issue2_occ o cv : forall p, clean cv = true -> occ_ok (o_alg o) (issue2 o p cv).
+Proof.
+  induction cv as [| b | z | s | a0 e0 e s n v IH | l IH | m IH] using val_ind'; intros p Hc;
+    try (intros g Hg [(kv & [] & _)|(d & [] & _)]).
+  cbn [issue2]. apply occ_ok_cat3. apply Forall_forall. intros tk Htk.
+  apply in_map_iff in Htk as ([k x] & <- & Hkx).
+  destruct (clean_obj_inv m Hc) as [_ Hm]. rewrite forallb_forall in Hm. specialize (Hm (k, x) Hkx). cbn [fst snd] in Hm.
+  apply andb_true_iff in Hm as [_ Hcx].
+  rewrite Forall_forall in IH. specialize (IH (k, x) Hkx). cbn [snd] in IH.
+  unfold member2. cbn [fst snd].
+  assert (Hleaf : occ_ok (o_alg o) (if memp (p ++ [SKey k]) (o_nonsd o) then ([(k, x)], [], []) else ([], [mk 3 (p ++ [SKey k]) k x], []))).
+  { destruct (memp (p ++ [SKey k]) (o_nonsd o)); [apply occ_raw_vis|apply occ_raw_sd]; assumption. }
+  destruct x; try exact Hleaf. destruct (o_structured o); [|exact Hleaf].
+  specialize (IH (p ++ [SKey k]) Hcx).
+  intros g Hg [(kv & [<-|[]] & Ho)|(d & [] & _)]. cbn [snd t_lvl t_nst fst app] in *.
+  exact (occ_obj_v2 (o_alg o) o (p ++ [SKey k]) _ g eq_refl Hg IH Ho).
+Qed.
+
+Lemma elems5_occ o p l g : forall i,
+  forallb clean l = true -> isdig g ->
+  (exists x, In x (fst (elems5 o p i l)) /\ occurs g x) ->
+  exists d0, In d0 (snd (elems5 o p i l)) /\ g = digest (o_alg o) d0.
+Proof.
+  induction l as [|x r IH]; intros i Hc Hg (x' & Hx' & Ho); [contradiction|].
+  cbn [forallb] in Hc. apply andb_true_iff in Hc as [Hcx Hcr].
+  cbn [elems5] in *. specialize (IH (N.succ i) Hcr Hg). destruct (elems5 o p (N.succ i) r) as [es ds].
+  destruct (memp (p ++ [SIdx i]) (o_nonsd o)); cbn [fst snd] in *.
+  - destruct Hx' as [<-|Hx']; [exfalso; exact (clean_no_dig x Hcx g Hg Ho)|]. apply IH. exists x'; split; assumption.
+  - destruct Hx' as [<-|Hx'].
+    + apply occurs_obj in Ho as (kv & [<-|[]] & Ho). cbn in Ho. destruct Ho as [->|Ho].
+      * exists (mk 2 (p ++ [SIdx i]) "" x). split; [left; reflexivity|reflexivity].
+      * exfalso. exact (clean_no_dig x Hcx g Hg Ho).
+    + destruct IH as (d0 & Hd0 & He); [exists x'; split; assumption|]. exists d0. split; [right|]; assumption.
+Qed.
+
+Lemma arr_member_occ o p l g :
+  forallb clean l = true -> isdig g -> occurs g (arr_member (fst (elems5 o p 0 l))) ->
+  exists d0, In d0 (snd (elems5 o p 0 l)) /\ g = digest (o_alg o) d0.
+Proof.
+  intros Hc Hg Ho. unfold arr_member in Ho. destruct (fst (elems5 o p 0 l)) eqn:E; [cbn in Ho; contradiction|].
+  rewrite <- E in Ho. apply occurs_arr in Ho. exact (elems5_occ o p l g 0 Hc Hg Ho).
+Qed.
+
+Lemma issue5_occ o cv : forall ign p t, clean cv = true -> issue5 o ign p cv = Ok t -> occ_ok (o_alg o) t.
+Proof.
+  induction cv as [| b | z | s | a0 e0 e s n v IH | l IH | m IH] using val_ind'; intros ign p t Hc Ht;
+    try (cbn in Ht; inversion Ht; intros g Hg [(kv & [] & _)|(d & [] & _)]).
+  cbn [issue5] in Ht. destruct (seq3 (map (member5 (issue5 o) o ign p) m)) as [ts| | |] eqn:Es; cbn in Ht; try discriminate.
+  inversion Ht; subst. apply occ_ok_cat3. apply Forall_forall. intros tk Htk.
+  apply seq3_inv in Es. destruct (Forall2_in_r _ _ _ _ Es Htk) as (rk & Hrk & Ek).
+  apply in_map_iff in Hrk as ([k x] & <- & Hkx).
+  destruct (clean_obj_inv m Hc) as [_ Hm]. rewrite forallb_forall in Hm. specialize (Hm (k, x) Hkx). cbn [fst snd] in Hm.
+  apply andb_true_iff in Hm as [_ Hcx].
+  rewrite Forall_forall in IH. specialize (IH (k, x) Hkx). cbn [snd] in IH.
+  unfold member5 in Ek. cbn [fst snd] in Ek. set (cur := p ++ [SKey k]) in *.
+  destruct x as [| b | z | s | a0 e0 e s n v | l | mm]; try discriminate.
+  - destruct (memp cur (o_nonsd o) || ign); inversion Ek; subst; [apply occ_raw_vis|apply occ_raw_sd]; assumption.
+  - destruct (memp cur (o_nonsd o) || ign); inversion Ek; subst; [apply occ_raw_vis|apply occ_raw_sd]; assumption.
+  - destruct (memp cur (o_nonsd o) || ign); inversion Ek; subst; [apply occ_raw_vis|apply occ_raw_sd]; assumption.
+  - destruct (memp cur (o_nonsd o)); [inversion Ek; subst; apply occ_raw_vis; assumption|].
+    assert (Hcl : forallb clean l = true) by (cbn in Hcx; apply andb_true_iff in Hcx as [_ H]; exact H).
+    pose proof (fun g Hg => arr_member_occ o cur l g Hcl Hg) as Harr.
+    destruct (elems5 o cur 0 l) as [es eds]. cbn [fst snd] in Harr.
+    destruct (memp cur (o_always o) || o_structured o); inversion Ek; subst.
+    + intros g Hg [(kv & [<-|[]] & Ho)|(d & [] & _)]. cbn [snd] in Ho. destruct (Harr g Hg Ho) as (d0 & Hd0 & He).
+      left. exists d0. split; [exact Hd0|exact He].
+    + intros g Hg [(kv & [] & _)|(d & [<-|[]] & Ho)]. cbn in Ho. destruct Ho as [->|Ho].
+      * left. eexists. split; [left; reflexivity|reflexivity].
+      * destruct (Harr g Hg Ho) as (d0 & Hd0 & He). left. exists d0. split; [right; exact Hd0|exact He].
+  - destruct (memp cur (o_nonsd o)); [inversion Ek; subst; apply occ_raw_vis; assumption|].
+    destruct (issue5 o (negb (memp cur (o_recursive o) || memp cur (o_always o) || o_structured o)) cur (VObj mm)) as [t'| | |] eqn:Et; cbn in Ek; try discriminate.
+    specialize (IH _ _ _ Hcx Et).
+    assert (Hin : forall g, isdig g -> occurs g (obj5 o cur (t_vis t') (t_lvl t')) ->
+              forall pre, (exists d0, In d0 (pre ++ decoy_discs cur (o_decoys o) ++ t_lvl t' ++ t_nst t') /\ g = digest (o_alg o) d0) \/ dig_e g = 0%N).
+    { intros g Hg Ho pre. destruct (occ_obj_v5 (o_alg o) o cur t' g eq_refl Hg IH Ho) as [(d0 & Hd0 & He)|He]; [left|right; exact He].
+      exists d0. split; [|exact He]. apply in_or_app. right. apply in_or_app. right. exact Hd0. }
+    destruct (negb (memp cur (o_recursive o) && negb (memp cur (o_always o))) && (memp cur (o_recursive o) || memp cur (o_always o) || o_structured o));
+      inversion Ek; subst.
+    + intros g Hg [(kv & [<-|[]] & Ho)|(d & [] & _)]. cbn [snd t_lvl t_nst fst app] in *. exact (Hin g Hg Ho []).
+    + intros g Hg [(kv & [] & _)|(d & [<-|[]] & Ho)]. cbn [t_lvl t_nst fst snd] in *. cbn in Ho. destruct Ho as [->|Ho].
+      * left. eexists. split; [left; reflexivity|reflexivity].
+      * exact (Hin g Hg Ho [mk 3 cur k (obj5 o cur (t_vis t') (t_lvl t'))]).
+Qed.
+
+Lemma registered_no_dig o g : isdig g -> ~ (exists kv, In kv (registered o) /\ occurs g (snd kv)).
+Proof.
+  intros Hg (kv & Hkv & Ho). unfold registered in Hkv. destruct (o_cnf o); cbn in Hkv;
+    repeat (destruct Hkv as [<-|Hkv]; [cbn in Ho; try (subst g; exact Hg); try tauto|]); try contradiction.
+Qed.
+
+(* (ii) the digest strings of an issued payload are those of the issued disclosures, or decoys *)
+Lemma issued_commitments o claims payload ds :
+  clean (VObj claims) = true -> issue o claims = Ok (payload, ds) ->
+  forall g, isdig g -> occurs g payload ->
+    (exists d0, In d0 ds /\ g = digest (o_alg o) d0) \/ dig_e g = 0%N.
+Proof.
+  intros Hc Hi g Hg Ho. unfold issue in Hi. destruct (key_exists_sd (VObj claims)); [discriminate|].
+  destruct (o_v5 o).
+  - destruct (issue5 o false [] (VObj claims)) as [t| | |] eqn:Et; cbn in Hi; try discriminate.
+    assert (E : payload = VObj (registered o ++ t_vis t ++ sd5 o [] (t_lvl t)) /\ ds = decoy_discs [] (o_decoys o) ++ t_lvl t ++ t_nst t)
+      by (inversion Hi; split; reflexivity).
+    destruct E as [-> ->]; clear Hi.
+    apply occurs_obj in Ho as (kv & Hkv & Ho). apply in_app_or in Hkv as [Hkv|Hkv].
+    + exfalso. apply (registered_no_dig o g Hg). exists kv; split; assumption.
+    + assert (Ho' : occurs g (obj5 o [] (t_vis t) (t_lvl t))) by (apply occurs_obj; exists kv; split; assumption).
+      destruct (occ_obj_v5 (o_alg o) o [] t g eq_refl Hg (issue5_occ o _ _ _ _ Hc Et) Ho') as [(d0 & Hd0 & He)|He]; [left|right; exact He].
+      exists d0. split; [apply in_or_app; right; exact Hd0|exact He].
+  - assert (E : payload = VObj (registered o ++ t_vis (issue2 o [] (VObj claims)) ++ [sd2 o [] (t_lvl (issue2 o [] (VObj claims)))])
+                /\ ds = t_lvl (issue2 o [] (VObj claims)) ++ t_nst (issue2 o [] (VObj claims)))
+      by (inversion Hi; split; reflexivity).
+    destruct E as [-> ->]; clear Hi.
+    apply occurs_obj in Ho as (kv & Hkv & Ho). apply in_app_or in Hkv as [Hkv|Hkv].
+    + exfalso. apply (registered_no_dig o g Hg). exists kv; split; assumption.
+    + assert (Ho' : occurs g (VObj (t_vis (issue2 o [] (VObj claims)) ++ [sd2 o [] (t_lvl (issue2 o [] (VObj claims)))])))
+        by (apply occurs_obj; exists kv; split; assumption).
+      exact (occ_obj_v2 (o_alg o) o [] _ g eq_refl Hg (issue2_occ o _ [] Hc) Ho').
+Qed.
+
+Lemma issue_payload_alg o claims payload ds :
+  alg_ok (o_alg o) -> issue o claims = Ok (payload, ds) -> get_alg payload = Ok (o_alg o).
+Proof.
+  intros Ha Hi. unfold issue in Hi. destruct (key_exists_sd (VObj claims)); [discriminate|]. destruct (o_v5 o).
+  - destruct (issue5 o false [] (VObj claims)) as [t| | |]; cbn in Hi; try discriminate.
+    assert (E : payload = VObj (registered o ++ t_vis t ++ sd5 o [] (t_lvl t))) by (inversion Hi; reflexivity).
+    rewrite E. apply get_alg_issued; assumption.
+  - assert (E : payload = VObj (registered o ++ t_vis (issue2 o [] (VObj claims)) ++ [sd2 o [] (t_lvl (issue2 o [] (VObj claims)))]))
+      by (inversion Hi; reflexivity).
+    rewrite E. apply get_alg_issued; assumption.
+Qed.
+
+Lemma reject_unissued_issued o claims payload ds vo p d :
+  alg_ok (o_alg o) -> clean (VObj claims) = true -> issue o claims = Ok (payload, ds) ->
+  p_payload p = payload -> In d (p_discs p) -> ~ In d ds -> is_ok (verify vo p) = false.
+Proof.
+  intros Ha Hc Hi Hp Hd Hn. destruct (verify vo p) eqn:E; try reflexivity. exfalso.
+  pose proof (reject_malformed vo p d Hd) as Hm.
+  destruct (accept_committed vo p a E) as (a' & Ha' & Hocc).
+  rewrite Hp, (issue_payload_alg o claims payload ds Ha Hi) in Ha'. inversion Ha'; subst a'.
+  specialize (Hocc d Hd). rewrite Hp in Hocc.
+  destruct (issued_commitments o claims payload ds Hc Hi (digest (o_alg o) d) I Hocc) as [(d0 & Hd0 & He)|He].
+  - apply digest_inj in He. subst d0. contradiction.
+  - cbn in He. rewrite E in Hm. cbn in Hm. assert (d_e d < 2)%N by lia. specialize (Hm H). discriminate.
+Qed.
